@@ -160,6 +160,35 @@ def rule_seed(ctx):
             if not from_ctx:
                 res.violate(ikey + "@params", "%s: used_vars is not seeded from the definition's parameter names (context.vars())" % key, s["sp"]["file"], s["sp"]["line"])
                 ok = False
+            else:
+                # ... and that function yields the names of *all* parameters: it does not select among the bindings (by chirality, say)
+                SELECT = {"filter", "filter_map", "take", "take_while", "skip", "skip_while", "step_by", "find", "retain", "partition", "position"}
+                for o in org:
+                    if o[0] != "call" or fn.term(o[1]).get("callee_name") != "vars":
+                        continue
+                    k2 = fn.term(o[1]).get("resolved_key") or fn.term(o[1]).get("callee_key")
+                    todo, seen_k = [k2], set()
+                    sel = None
+                    while todo and not sel:
+                        kk = todo.pop()
+                        if kk in seen_k or kk not in fx.fns:
+                            continue
+                        seen_k.add(kk)
+                        for b_ in fx.fns[kk]["blocks"]:
+                            t_ = b_["term"]
+                            if t_["k"] != "call":
+                                continue
+                            if t_.get("callee_name") in SELECT and (t_.get("callee") or "").startswith(("core::iter", "core::slice", "alloc::vec")):
+                                sel = (t_.get("callee_name"), t_["sp"])
+                                break
+                            k3 = t_.get("resolved_key") or t_.get("callee_key")
+                            if k3 in fx.fns and fx.fns[k3]["crate"] == "fun" and len(seen_k) < 6:
+                                todo.append(k3)
+                    if sel:
+                        res.violate(ikey + "@all-params", "%s seeds used_vars with %s(), which selects among the parameters (%s at %s:%d): the names of the "
+                                    "parameters left out are not reserved, and a generated name can coincide with one of them" %
+                                    (key, k2.split("::")[-1], sel[0], sel[1]["file"], sel[1]["line"]), s["sp"]["file"], s["sp"]["line"])
+                        ok = False
             # used_binders(&body, &mut used_vars) must dominate the construction and receive the same local
             good_ub = []
             for b in ub:
